@@ -190,7 +190,9 @@ impl<
         if buf.is_empty() {
             Ok(0)
         } else {
-            self.read(buf)
+            // the inherent method: `self.read(buf)` would resolve to this
+            // trait method again (`self` is `&mut Self` here)
+            File::read(self, buf)
         }
     }
 }
@@ -207,7 +209,8 @@ impl<
         if buf.is_empty() {
             Ok(0)
         } else {
-            self.write(buf)?;
+            // the inherent method, see `read` above
+            File::write(self, buf)?;
             Ok(buf.len())
         }
     }
